@@ -473,7 +473,8 @@ Fixpoint first_some_idx (l : list (option nat)) : option (nat * nat) :=
   | None :: r => match first_some_idx r with Some (i, c) => Some (S i, c) | None => None end
   end.
 
-(* while(n) { ... }  H: heap (links get nulled), dead: freed nodes *)
+(* while(n) { ... }  H: heap (links get nulled), dead: freed nodes.  Every node is the current node at most
+   (number of its links + 1) <= 17 times, hence the fuel 17 * nodes + 1 in [destructor]. *)
 Fixpoint dtor_loop (f : nat) (esz lsz : N) (H : list node) (dead : list nat) (lg : list ev) (n : option nat)
   : outcome (list node * list nat * list ev) :=
   match f with O => OutOfFuel | S f' =>
@@ -499,7 +500,7 @@ Fixpoint dtor_loop (f : nat) (esz lsz : N) (H : list node) (dead : list nat) (lg
   end end end.
 
 Definition destructor (esz lsz : N) (s : st) : outcome st :=
-  r <- dtor_loop (S (2 * length (nodes s))) esz lsz (nodes s) [] (rlog s) (root s) ;;
+  r <- dtor_loop (S (17 * length (nodes s))) esz lsz (nodes s) [] (rlog s) (root s) ;;
   let '(H, _, lg) := r in Ok (mk_st H None lg).
 
 (* ---------------------------------------------------------------- operations of a history *)
